@@ -340,7 +340,7 @@ def _toarrays(
 def _shape_of(result: tuple[FloatArray, ...] | ScalarCollection) -> tuple[int, ...]:
     """
     Calculates the shape of a tuple of ``numpy.array``s. The shape returned
-    is the highest (numerical) value of the shapes present in the tuple.
+    is the shape all arrays in the tuple broadcast to.
 
     Args:
         result (tuple): A tuple of ``numpy.array``s.
@@ -360,17 +360,15 @@ def _shape_of(result: tuple[FloatArray, ...] | ScalarCollection) -> tuple[int, .
     """
     if not isinstance(result, tuple):
         result = (result,)
-    shape: list[int] | None = None
+    shapes: list[tuple[int, ...]] = []
     for x in result:
         if hasattr(x, "shape"):
-            thisshape = list(x.shape)
+            shapes.append(tuple(x.shape))
         elif isinstance(x, collections.abc.Sized):
-            thisshape = [len(x)]
-        if shape is None or thisshape[0] > shape[0]:
-            shape = thisshape
+            shapes.append((len(x),))
 
-    assert shape is not None
-    return tuple(shape)
+    assert len(shapes) != 0
+    return numpy.broadcast_shapes(*shapes)
 
 
 def _is_type_safe(
